@@ -3,6 +3,7 @@ package world
 import (
 	"context"
 	"encoding/json"
+	"strings"
 	"crypto/aes"
 	"crypto/cipher"
 	"encoding/base64"
@@ -265,6 +266,11 @@ func (st *SimStore) put(by, id string, created int64, doc []byte, op int) {
 	st.Rows[id][created] = append([]byte(nil), doc...)
 	st.AtInsert[id][created] = append([]byte(nil), doc...)
 	st.Log = append(st.Log, StoreEvent{By: by, Kind: "insert", ID: id, Created: created, T: st.w.S.Elapsed(), Op: op})
+	if st.w.Mem != nil && !strings.HasPrefix(by, "sdk:") {
+		if kr, err := refimpl.ParseKeyRecord(doc); err == nil {
+			st.w.Mem.Store(context.Background(), id, created, toEKR(id, kr))
+		}
+	}
 }
 
 // Revoke flips the Revoked flag of a row out of band (the operator).
@@ -277,6 +283,11 @@ func (st *SimStore) Revoke(id string, created int64) bool {
 	st.Rows[id][created] = refimpl.MakeKeyRecord(kr.Created, kr.KeyBytes(), kr.ParentKeyMeta, true)
 	st.AtInsert[id][created] = append([]byte(nil), st.Rows[id][created]...)
 	st.Log = append(st.Log, StoreEvent{By: "operator", Kind: "revoke", ID: id, Created: created, T: st.w.S.Elapsed(), Op: -1})
+	if st.w.Mem != nil {
+		if e := st.w.Mem.Envelopes[id][created]; e != nil {
+			e.Revoked = true
+		}
+	}
 	st.w.S.Logf("operator revoke %s@%d", id, created)
 	return true
 }
@@ -327,6 +338,10 @@ func (m *msView) Load(_ context.Context, id string, created int64) (*appencrypti
 		c.Parent = kr.ParentKeyMeta.Created
 	}
 	m.w.leave(c, "ok")
+	if m.w.Mem != nil {
+		// the repository's in-memory metastore hands out its own stored pointer
+		return m.w.Mem.Load(context.Background(), id, created)
+	}
 	return toEKR(id, kr), nil
 }
 
@@ -352,6 +367,9 @@ func (m *msView) LoadLatest(_ context.Context, id string) (*appencryption.Envelo
 		c.Parent = kr.ParentKeyMeta.Created
 	}
 	m.w.leave(c, "ok")
+	if m.w.Mem != nil {
+		return m.w.Mem.LoadLatest(context.Background(), id)
+	}
 	return toEKR(id, kr), nil
 }
 
@@ -387,6 +405,9 @@ func (m *msView) Store(_ context.Context, id string, created int64, e *appencryp
 	}
 	if !exists {
 		m.w.Store.put(fmt.Sprintf("sdk:p%d", m.proc), id, created, fromEKR(e), opIdx)
+		if m.w.Mem != nil {
+			m.w.Mem.Store(context.Background(), id, created, e)
+		}
 	}
 	if f == FErrAfter {
 		m.w.leave(c, "err-after")
